@@ -6,6 +6,7 @@ import (
 	"context"
 	"errors"
 	"fmt"
+	logslog "log/slog"
 	"runtime"
 	"sort"
 	"strings"
@@ -26,6 +27,8 @@ type loggerSpec struct {
 	OwnAttrs    bool
 	SharedGroup bool // the logger-level attributes include the shared group value
 	CtxKeys     bool // the logger extracts the request id from the call's context (string key and Stringer key)
+	LevelWriter bool // the logger has per-level writers (for Warn and Error; they are the same recorder, so routing does not change)
+	Adapter     bool // calls go through a log/slog Logger derived with With(...) from a handler on this logger, without attributes of their own
 }
 
 type workload struct {
@@ -37,13 +40,14 @@ type workload struct {
 	MultiLine  bool
 	ErrorVals  bool
 	YieldEvery int
+	BigValues  bool // some calls carry a string attribute of several KB (the pooled buffers must grow)
 	Blanks     bool // some calls are blank Print/Println (delivered as a bare newline)
 	OddLevels  bool // some calls use unregistered numeric levels (one per goroutine)
 }
 
 func (w workload) String() string {
-	return fmt.Sprintf("loggers=%+v G=%d N=%d GOMAXPROCS=%d callSharedGroup=%v multiline=%v errors=%v blanks=%v unregisteredLevels=%v yieldEvery=%d seed=%d",
-		w.Loggers, w.G, w.N, w.Procs, w.CallGroup, w.MultiLine, w.ErrorVals, w.Blanks, w.OddLevels, w.YieldEvery, w.Seed)
+	return fmt.Sprintf("loggers=%+v G=%d N=%d GOMAXPROCS=%d callSharedGroup=%v multiline=%v errors=%v blanks=%v unregisteredLevels=%v bigValues=%v yieldEvery=%d seed=%d",
+		w.Loggers, w.G, w.N, w.Procs, w.CallGroup, w.MultiLine, w.ErrorVals, w.Blanks, w.OddLevels, w.BigValues, w.YieldEvery, w.Seed)
 }
 
 // the members of the shared group: unsorted and with a duplicate key so that the
@@ -68,6 +72,9 @@ func mix(x uint64) uint64 {
 }
 
 var stackErr = errorsv3.New("stack carrying error")
+
+// bigValue is a string of about 5 KB that is different for every call.
+func bigValue(id string) string { return strings.Repeat(id+" ", 5200/(len(id)+1)) }
 
 type ctxKeyT struct{ n string }
 
@@ -163,7 +170,26 @@ func run(t *rapid.T, test string, wl workload) {
 		if ls.CtxKeys {
 			lg.SetContextKeys("reqid", reqKey)
 		}
+		if ls.LevelWriter {
+			lg.AddLevelWriter(slog.WarnLevel, w)
+			lg.AddLevelWriter(slog.ErrorLevel, w)
+		}
 	}
+	// log/slog front ends (built last: NewSlogHandler edits the package flags, which are set again below)
+	adapters := make([]*logslog.Logger, len(wl.Loggers))
+	derivedExp := []vlib.ExpAttr{}
+	var derivedArgs []any
+	for _, k := range []string{"zeta", "mid", "alpha", "kappa", "beta", "omega", "delta", "chi", "eta", "nu", "xi", "pi", "rho", "tau"} { // unsorted on purpose
+		derivedExp = append(derivedExp, vlib.ExpAttr{Key: k, Val: vlib.Value{Kind: "string", V: "with-" + k}})
+		derivedArgs = append(derivedArgs, k, "with-"+k)
+	}
+	for i, ls := range wl.Loggers {
+		if ls.Adapter {
+			h := slog.NewSlogHandler(loggers[i], &slog.HandlerOptions{NoColor: ls.Format != "color", JSON: ls.Format == "json", NoSource: true})
+			adapters[i] = logslog.New(h).With(derivedArgs...)
+		}
+	}
+	slog.SetFlags(vlib.BaseFlags)
 
 	// the plan: what call (g,i) does, a pure function of the drawn seed
 	type call struct {
@@ -184,6 +210,9 @@ func run(t *rapid.T, test string, wl workload) {
 			c.sev, c.admit = slog.DebugLevel, false // not admitted by an Info logger: must not be delivered
 		default:
 			c.sev, c.admit = slog.InfoLevel, true
+		}
+		if wl.Loggers[c.logger].Adapter {
+			return c // through log/slog only the four standard levels are used, with no per-call attributes
 		}
 		if wl.OddLevels && (h>>16)%4 == 0 {
 			c.sev, c.admit = slog.Level(-100-g), true // unregistered, one value per goroutine; numerically admitted by an Info logger
@@ -217,6 +246,10 @@ func run(t *rapid.T, test string, wl workload) {
 			if wl.MultiLine && i%3 == 0 {
 				msg += "\nsecond line of " + id + "\nthird"
 			}
+			if wl.Loggers[c.logger].Adapter {
+				expected[id] = expectation{logger: c.logger, level: levelName(c.sev), msg: msg, attrs: derivedExp}
+				continue
+			}
 			var attrs []vlib.ExpAttr
 			if wl.Loggers[c.logger].CtxKeys {
 				// context values come first in the merge
@@ -229,6 +262,9 @@ func run(t *rapid.T, test string, wl workload) {
 			}
 			if wl.ErrorVals && i%4 == 1 {
 				attrs = append(attrs, vlib.ExpAttr{Key: "err", Val: vlib.Value{Kind: "error", V: stackErr}})
+			}
+			if wl.BigValues && i%5 == 2 {
+				attrs = append(attrs, vlib.ExpAttr{Key: "big", Val: vlib.Value{Kind: "string", V: bigValue(id)}})
 			}
 			expected[id] = expectation{logger: c.logger, level: levelName(c.sev), msg: msg, attrs: attrs}
 		}
@@ -262,7 +298,23 @@ func run(t *rapid.T, test string, wl workload) {
 				if wl.MultiLine && i%3 == 0 {
 					msg += "\nsecond line of " + id + "\nthird"
 				}
+				if sl := adapters[c.logger]; sl != nil {
+					switch c.sev {
+					case slog.ErrorLevel:
+						sl.Error(msg)
+					case slog.WarnLevel:
+						sl.Warn(msg)
+					case slog.DebugLevel:
+						sl.Debug(msg)
+					default:
+						sl.Info(msg)
+					}
+					continue
+				}
 				args := []any{"id", id, "i", i}
+				if wl.BigValues && i%5 == 2 {
+					args = append(args, "big", bigValue(id))
+				}
 				if wl.CallGroup && i%2 == 0 {
 					args = append(args, shared)
 				}
@@ -397,6 +449,12 @@ func run(t *rapid.T, test string, wl workload) {
 		if ls.CtxKeys {
 			sharing["context-keys"] = true
 		}
+		if ls.LevelWriter {
+			sharing["per-level-writers"] = true
+		}
+		if ls.Adapter {
+			sharing["derived-log/slog-logger"] = true
+		}
 	}
 	if wl.CallGroup {
 		sharing["call-shared-group"] = true
@@ -433,7 +491,11 @@ func genWorkload(t *rapid.T, maxCalls int) workload {
 	for i := 0; i < nl; i++ {
 		ls := loggerSpec{Format: rapid.SampledFrom([]string{"json", "logfmt", "color"}).Draw(t, "format"), Parent: -1,
 			OwnAttrs: rapid.Bool().Draw(t, "ownAttrs"), SharedGroup: rapid.IntRange(0, 2).Draw(t, "loggerSharedGroup") == 0,
-			CtxKeys: rapid.IntRange(0, 2).Draw(t, "ctxKeys") == 0}
+			CtxKeys: rapid.IntRange(0, 2).Draw(t, "ctxKeys") == 0, LevelWriter: rapid.IntRange(0, 2).Draw(t, "levelWriter") == 0,
+			Adapter: rapid.IntRange(0, 4).Draw(t, "viaLogSlog") == 0}
+		if ls.Adapter {
+			ls.OwnAttrs, ls.SharedGroup, ls.CtxKeys = false, false, false // the handler path prints the record's and the derived attributes only
+		}
 		if i > 0 && rapid.Bool().Draw(t, "child") {
 			ls.Parent = rapid.IntRange(0, i-1).Draw(t, "parent")
 		}
@@ -454,6 +516,7 @@ func genWorkload(t *rapid.T, maxCalls int) workload {
 	wl.ErrorVals = rapid.Bool().Draw(t, "errorValues")
 	wl.YieldEvery = rapid.SampledFrom([]int{0, 1, 3, 7}).Draw(t, "yieldEvery")
 	wl.Blanks = rapid.IntRange(0, 2).Draw(t, "blankPrints") == 0
+	wl.BigValues = rapid.IntRange(0, 2).Draw(t, "bigValues") == 0
 	wl.OddLevels = rapid.IntRange(0, 2).Draw(t, "unregisteredLevels") == 0
 	return wl
 }
